@@ -271,7 +271,12 @@ func runC12(a *A) {
 		got := map[string]token.Pos{}
 		for _, fn := range a.ModFuncs {
 			for _, c := range callsTo(fn, ctor) {
-				got[fname(fn)] = c.Pos()
+				// a function literal is part of the function it is written in
+				root := fn
+				for root.Parent() != nil {
+					root = root.Parent()
+				}
+				got[fname(root)] = c.Pos()
 			}
 		}
 		for f, kind := range want {
@@ -587,10 +592,7 @@ func (a *A) ruleHavingFailsClosed() int {
 			if !ok || len(ret.Results) == 0 {
 				continue
 			}
-			onErr := guardedByValue(b, func(v ssa.Value) bool {
-				bo, ok := v.(*ssa.BinOp)
-				return ok && bo.Op == token.NEQ && isNilConst(bo.Y) && isErrorType(bo.X.Type())
-			}, true)
+			onErr := guardedNil(b, func(x ssa.Value) bool { return isErrorType(x.Type()) }, false)
 			if !onErr {
 				continue
 			}
